@@ -80,7 +80,7 @@ class OWorld:
             self.names = ["k"] * spec["nk"]
             self.kcont = [KDict([("k", float(v))]) for v in spec["start"]]
         else:
-            self.names = ["k%d" % i for i in range(spec["nk"])]
+            self.names = list(spec.get("names") or ["k%d" % i for i in range(spec["nk"])])
             shared = KDict((n, float(v)) for n, v in zip(self.names, spec["start"]))
             self.kcont = [shared] * spec["nk"]
         self.knobs = self.kcont[0]
